@@ -368,11 +368,801 @@ pub mod c19 {
 }
 
 pub mod c20 {
+    //! C20 — the GUI receive thread keeps up with the server and stops with the session.
+    //! Subject: launch_rdp_thread / wait_for_fd from the included GUI source, on a real
+    //! RdpClient<GatedSocket> over a UnixStream pair, TLS served by the reference server from a pump
+    //! thread. Liveness is restated as bounded progress at *quiescence* (server script finished and
+    //! the thread either exited or is blocked in select with an empty socket); spinning is detected
+    //! logically (read calls after end-of-stream), never by the clock.
     use super::*;
-    pub fn run(_cfg: &Cfg) -> Report {
-        Report::new()
+    use rdp::core::client::RdpClient;
+    use rdp::core::event::{BitmapEvent, KeyboardEvent, RdpEvent};
+    use rdpverif::client::{self, ConnCfg};
+    use rdpverif::refs::build::B;
+    use rdpverif::refs::proto::{self, Profile, Rect};
+    use rdpverif::server::{ServerState, Wrap};
+    use std::io::{Read, Write};
+    use std::os::unix::io::AsRawFd;
+    use std::os::unix::net::UnixStream;
+    use std::sync::atomic::{AtomicBool, AtomicU64, Ordering};
+    use std::sync::{mpsc, Arc, Condvar, Mutex};
+    use std::time::{Duration, Instant};
+
+    // ---------------------------------------------------------------- gated socket
+
+    #[derive(Default)]
+    pub struct Gate {
+        pub reads: AtomicU64,
+        pub eof_seen: AtomicBool,
+        pub reads_after_eof: AtomicU64,
+        pub enabled: AtomicBool,
+        pub arrived: Mutex<u64>,
+        pub arrived_cv: Condvar,
+        pub release: Mutex<u64>,
+        pub release_cv: Condvar,
     }
-    pub fn replay(_cfg: &Cfg, _v: &Value) -> Report {
-        Report::new()
+
+    pub struct GatedSocket {
+        s: UnixStream,
+        g: Arc<Gate>,
+    }
+
+    impl Read for GatedSocket {
+        fn read(&mut self, buf: &mut [u8]) -> std::io::Result<usize> {
+            self.g.reads.fetch_add(1, Ordering::SeqCst);
+            if self.g.enabled.load(Ordering::SeqCst) {
+                // tell the controller that the thread is past select, holds the mutex and is about to read
+                let ticket = {
+                    let mut a = self.g.arrived.lock().unwrap();
+                    *a += 1;
+                    self.g.arrived_cv.notify_all();
+                    *a
+                };
+                let mut r = self.g.release.lock().unwrap();
+                let deadline = Instant::now() + Duration::from_secs(10);
+                while *r < ticket && self.g.enabled.load(Ordering::SeqCst) && Instant::now() < deadline {
+                    let (g2, _) = self.g.release_cv.wait_timeout(r, Duration::from_millis(50)).unwrap();
+                    r = g2;
+                }
+            }
+            let r = self.s.read(buf);
+            let dead = matches!(r, Ok(0)) && !buf.is_empty() || r.is_err();
+            if dead {
+                if self.g.eof_seen.swap(true, Ordering::SeqCst) {
+                    self.g.reads_after_eof.fetch_add(1, Ordering::SeqCst);
+                }
+            }
+            r
+        }
+    }
+
+    impl Write for GatedSocket {
+        fn write(&mut self, buf: &[u8]) -> std::io::Result<usize> {
+            self.s.write(buf)
+        }
+        fn flush(&mut self) -> std::io::Result<()> {
+            self.s.flush()
+        }
+    }
+
+    // ---------------------------------------------------------------- scenario
+
+    #[derive(Clone, Debug, PartialEq)]
+    pub enum Packing {
+        OnePerRecord,
+        /// k PDUs concatenated in one TLS record
+        SeveralPerRecord(usize),
+        /// each PDU split across n records
+        SplitAcrossRecords(usize),
+        /// one PDU per record, the ciphertext written in segments cut at this offset of each record
+        SegmentSplit(usize),
+    }
+
+    #[derive(Clone, Copy, Debug, PartialEq)]
+    pub enum End {
+        None,
+        Ultimatum,
+        CloseNotify,
+        AbruptClose,
+        GarbagePdu,
+    }
+
+    #[derive(Clone, Copy, Debug, PartialEq)]
+    pub enum Point {
+        BeforeAnyUpdate,
+        BetweenPdus,
+        MiddleOfPdu,
+        AfterLast,
+    }
+
+    #[derive(Clone, Copy, Debug, PartialEq)]
+    pub enum Step {
+        /// the thread is blocked in select when the end event is sent
+        InSelect,
+        /// the thread is past select, holds the mutex and stands at the entry of read()
+        AtRead,
+        /// the thread is past select and blocked at lock() (the controller holds the mutex)
+        AtLock,
+        /// no placement: seeded delays only
+        Free,
+    }
+
+    #[derive(Clone, Debug)]
+    pub struct Scenario {
+        pub packing: Packing,
+        pub n_pdus: usize,
+        pub end: End,
+        pub point: Point,
+        pub step: Step,
+        pub tls12: bool,
+        pub linger: bool,
+        pub input_writer: bool,
+        pub pauses: bool,
+        /// the end event travels in the same TLS record as the PDUs just before it
+        pub end_in_same_record: bool,
+        pub seed: u64,
+    }
+
+    impl Scenario {
+        pub fn to_json(&self) -> Value {
+            json!({"packing": format!("{:?}", self.packing), "n_pdus": self.n_pdus, "end": format!("{:?}", self.end), "point": format!("{:?}", self.point), "step": format!("{:?}", self.step),
+                   "tls12": self.tls12, "linger": self.linger, "input_writer": self.input_writer, "pauses": self.pauses, "end_in_same_record": self.end_in_same_record, "seed": self.seed, "gen": self.gen_idx()})
+        }
+        fn gen_idx(&self) -> Value {
+            Value::Null
+        }
+        /// signature class: packing and way of ending (point and step are in the detail and the interleaving set)
+        pub fn class(&self) -> String {
+            format!("{}/{:?}", self.packing_name(), self.end)
+        }
+        pub fn full_class(&self) -> String {
+            format!("{}/{:?}@{:?}/{:?}", self.packing_name(), self.end, self.point, self.step)
+        }
+        pub fn packing_name(&self) -> String {
+            if self.end_in_same_record && matches!(self.end, End::Ultimatum | End::GarbagePdu) {
+                return "end-event-in-the-record-of-the-last-pdus".to_string();
+            }
+            format!("{}", match &self.packing {
+                Packing::OnePerRecord => "one-pdu-per-record".to_string(),
+                Packing::SeveralPerRecord(_) => "several-pdus-per-record".to_string(),
+                Packing::SplitAcrossRecords(_) => "pdu-split-across-records".to_string(),
+                Packing::SegmentSplit(_) => "record-split-across-segments".to_string(),
+            })
+        }
+    }
+
+    fn thread_ids() -> Vec<i32> {
+        let mut v = Vec::new();
+        if let Ok(rd) = std::fs::read_dir("/proc/self/task") {
+            for e in rd.flatten() {
+                if let Ok(t) = e.file_name().to_string_lossy().parse::<i32>() {
+                    v.push(t);
+                }
+            }
+        }
+        v
+    }
+
+    /// number of the system call the thread is blocked in (-1 running / unknown)
+    fn blocked_syscall(tid: i32) -> i64 {
+        match std::fs::read_to_string(format!("/proc/self/task/{}/syscall", tid)) {
+            Ok(s) => {
+                let first = s.split_whitespace().next().unwrap_or("");
+                if first == "running" {
+                    -1
+                } else {
+                    first.parse::<i64>().unwrap_or(-2)
+                }
+            }
+            Err(_) => -3, // thread gone
+        }
+    }
+
+    /// CPU time consumed by a thread, in clock ticks (utime + stime of /proc/self/task/<tid>/stat)
+    fn cpu_ticks(tid: i32) -> u64 {
+        match std::fs::read_to_string(format!("/proc/self/task/{}/stat", tid)) {
+            Ok(s) => {
+                let rest = s.rsplit(')').next().unwrap_or("");
+                let f: Vec<&str> = rest.split_whitespace().collect();
+                // after the command: state(0) ppid(1) ... utime is field 14 of the line = index 11 here, stime index 12
+                f.get(11).and_then(|x| x.parse::<u64>().ok()).unwrap_or(0) + f.get(12).and_then(|x| x.parse::<u64>().ok()).unwrap_or(0)
+            }
+            Err(_) => 0,
+        }
+    }
+
+    fn fionread(fd: i32) -> i32 {
+        let mut n: libc::c_int = 0;
+        unsafe {
+            libc::ioctl(fd, libc::FIONREAD, &mut n);
+        }
+        n
+    }
+
+    /// every thread creation of a scenario happens under this lock, so that the receive thread can be identified
+    /// as the one new entry of /proc/self/task while it is held
+    static SPAWN: Mutex<()> = Mutex::new(());
+
+    const SYS_SELECT: i64 = 23;
+    const SYS_PSELECT6: i64 = 270;
+    const SYS_FUTEX: i64 = 202;
+    const SYS_READ: i64 = 0;
+    const SYS_RECVFROM: i64 = 45;
+
+    pub struct Outcome {
+        pub violations: Vec<(String, String)>,
+        pub inconclusive: Option<String>,
+        pub interleaving: String,
+        pub delivered: usize,
+        pub expected: usize,
+        pub reads_after_eof: u64,
+        pub exited: bool,
+    }
+
+    struct Server {
+        state: Arc<Mutex<ServerState>>,
+        sock: Arc<Mutex<UnixStream>>,
+    }
+
+    impl Server {
+        fn flush(&self) {
+            let bytes: Vec<u8> = {
+                let mut s = self.state.lock().unwrap();
+                s.out.drain(..).collect()
+            };
+            if !bytes.is_empty() {
+                let _ = self.sock.lock().unwrap().write_all(&bytes);
+            }
+        }
+        /// plaintext -> one TLS record -> ciphertext
+        fn seal(&self, plain: &[u8]) -> Vec<u8> {
+            let mut s = self.state.lock().unwrap();
+            match s.tls.as_mut() {
+                Some(t) => t.seal(plain),
+                None => plain.to_vec(),
+            }
+        }
+        fn write_raw(&self, bytes: &[u8]) {
+            let _ = self.sock.lock().unwrap().write_all(bytes);
+        }
+        fn frame(&self, inner: &B, w: Wrap) -> Vec<u8> {
+            self.state.lock().unwrap().wrap(inner, w).v
+        }
+    }
+
+    fn bitmap_pdu(srv: &Server, k: usize) -> (Vec<u8>, Vec<Vec<u8>>) {
+        let nr = 1 + k % 3;
+        let rects: Vec<Rect> = (0..nr)
+            .map(|i| Rect { left: k as u16, top: i as u16, right: k as u16 + 1, bottom: i as u16 + 1, width: 2, height: 2, bpp: 32, flags: 0, data: {
+                let mut d = vec![0u8; 16];
+                d[0] = k as u8;
+                d[1] = (k >> 8) as u8;
+                d[2] = i as u8;
+                d[3] = 0xC2;
+                d
+            } })
+            .collect();
+        let stamps = rects.iter().map(|r| r.data.clone()).collect();
+        (srv.frame(&proto::fp_update(1, &proto::bitmap_update_body(&rects)), Wrap::FastPath { sec: 0, long: k % 2 == 0 }), stamps)
+    }
+
+    pub fn run_scenario(sc: &Scenario) -> Outcome {
+        let mut out = Outcome { violations: Vec::new(), inconclusive: None, interleaving: String::new(), delivered: 0, expected: 0, reads_after_eof: 0, exited: false };
+        let mut rng = Rng::derive(sc.seed, "C20-run", 0, 0);
+        let (cs, ss) = match UnixStream::pair() {
+            Ok(p) => p,
+            Err(e) => {
+                out.inconclusive = Some(format!("socketpair: {}", e));
+                return out;
+            }
+        };
+        let client_fd = cs.as_raw_fd();
+        let mut profile = Profile::default();
+        profile.selected_protocol = 1;
+        let mut st = ServerState::new(profile);
+        st.tls_identity = 2;
+        st.tls12_only = sc.tls12;
+        let state = Arc::new(Mutex::new(st));
+        let sock_w = Arc::new(Mutex::new(ss.try_clone().expect("clone server socket")));
+        let srv = Server { state: state.clone(), sock: sock_w.clone() };
+        // pump: everything the client writes is fed to the reference server, its answers are written back
+        let pump_state = state.clone();
+        let pump_sock = sock_w.clone();
+        let mut rd = ss.try_clone().expect("clone");
+        let spawn_guard = SPAWN.lock().unwrap();
+        let pump = std::thread::spawn(move || {
+            let mut buf = [0u8; 16384];
+            loop {
+                match rd.read(&mut buf) {
+                    Ok(0) | Err(_) => break,
+                    Ok(n) => {
+                        let bytes: Vec<u8> = {
+                            let mut s = pump_state.lock().unwrap();
+                            s.client_wrote(&buf[..n]);
+                            s.out.drain(..).collect()
+                        };
+                        if !bytes.is_empty() {
+                            let _ = pump_sock.lock().unwrap().write_all(&bytes);
+                        }
+                    }
+                }
+            }
+        });
+        drop(spawn_guard);
+        let gate = Arc::new(Gate::default());
+        let gs = GatedSocket { s: cs, g: gate.clone() };
+        let mut cfg = ConnCfg::default();
+        cfg.nla = false;
+        let mut rc: RdpClient<GatedSocket> = match client::connector(&cfg).connect(gs) {
+            Ok(c) => c,
+            Err(e) => {
+                out.inconclusive = Some(format!("connect failed: {}", client::err_kind(&e)));
+                unsafe { libc::shutdown(ss.as_raw_fd(), libc::SHUT_RDWR) };
+                let _ = pump.join();
+                return out;
+            }
+        };
+        for _ in 0..5 {
+            if let Err(e) = rc.read(|_| {}) {
+                out.inconclusive = Some(format!("activation failed: {}", client::err_kind(&e)));
+                unsafe { libc::shutdown(ss.as_raw_fd(), libc::SHUT_RDWR) };
+                let _ = pump.join();
+                return out;
+            }
+        }
+        // TLS 1.3 session tickets may still be queued: let the client drain them before the thread starts, so that the
+        // first select does not fire without application data (an idle read would then block holding the mutex)
+        let shared = Arc::new(Mutex::new(rc));
+        let sync = Arc::new(AtomicBool::new(true));
+        let (tx, rx) = mpsc::channel::<BitmapEvent>();
+        let spawn_guard = SPAWN.lock().unwrap();
+        let before = thread_ids();
+        let handle = match super::super::launch_rdp_thread(client_fd as usize, Arc::clone(&shared), Arc::clone(&sync), tx) {
+            Ok(h) => h,
+            Err(_) => {
+                out.inconclusive = Some("launch_rdp_thread failed".into());
+                return out;
+            }
+        };
+        // identify the receive thread
+        let mut tid = -1;
+        for _ in 0..200 {
+            let now = thread_ids();
+            if let Some(t) = now.iter().find(|t| !before.contains(t)) {
+                tid = *t;
+                break;
+            }
+            std::thread::sleep(Duration::from_millis(1));
+        }
+        drop(spawn_guard);
+        let in_select = |tid: i32| -> bool {
+            let sc = blocked_syscall(tid);
+            sc == SYS_SELECT || sc == SYS_PSELECT6
+        };
+        let wait_in_select = |max_ms: u64| -> bool {
+            let t0 = Instant::now();
+            while t0.elapsed() < Duration::from_millis(max_ms) {
+                if in_select(tid) && fionread(client_fd) == 0 {
+                    return true;
+                }
+                if handle.is_finished() {
+                    return false;
+                }
+                std::thread::sleep(Duration::from_micros(300));
+            }
+            false
+        };
+        // optional concurrent input writer (the GUI loop's role)
+        let stop_writer = Arc::new(AtomicBool::new(false));
+        let spawn_guard = SPAWN.lock().unwrap();
+        let writer = if sc.input_writer {
+            let sh = shared.clone();
+            let stop = stop_writer.clone();
+            let seed = sc.seed;
+            Some(std::thread::spawn(move || {
+                let mut r = Rng::derive(seed, "C20-writer", 0, 0);
+                while !stop.load(Ordering::SeqCst) {
+                    if let Ok(mut g) = sh.lock() {
+                        let _ = g.try_write(RdpEvent::Key(KeyboardEvent { code: 0x1e, down: true }));
+                    }
+                    std::thread::sleep(Duration::from_micros(r.range(50, 2000)));
+                }
+            }))
+        } else {
+            None
+        };
+
+        drop(spawn_guard);
+
+        // ---- the script
+        let mut trace: Vec<String> = Vec::new();
+        let mut expected: Vec<Vec<u8>> = Vec::new();
+        let total = sc.n_pdus;
+        // "in the middle of a PDU" is only meaningful for the ways of ending that cut the stream
+        let point = if sc.point == Point::MiddleOfPdu && matches!(sc.end, End::Ultimatum | End::GarbagePdu | End::None) { Point::BetweenPdus } else { sc.point };
+        let end_after = match point {
+            Point::BeforeAnyUpdate => 0,
+            Point::BetweenPdus | Point::MiddleOfPdu => total / 2,
+            Point::AfterLast => total,
+        };
+        let pause = |r: &mut Rng, on: bool| {
+            if on {
+                std::thread::sleep(Duration::from_micros(r.range(0, 1500)));
+            }
+        };
+        // PDUs before the end event
+        let mut k = 0;
+        while k < end_after {
+            match &sc.packing {
+                Packing::OnePerRecord => {
+                    let (f, st) = bitmap_pdu(&srv, k);
+                    srv.write_raw(&srv.seal(&f));
+                    expected.extend(st);
+                    k += 1;
+                }
+                Packing::SeveralPerRecord(n) => {
+                    let mut plain = Vec::new();
+                    let mut j = 0;
+                    while j < *n && k < end_after {
+                        let (f, st) = bitmap_pdu(&srv, k);
+                        plain.extend_from_slice(&f);
+                        expected.extend(st);
+                        k += 1;
+                        j += 1;
+                    }
+                    srv.write_raw(&srv.seal(&plain));
+                }
+                Packing::SplitAcrossRecords(n) => {
+                    let (f, st) = bitmap_pdu(&srv, k);
+                    let piece = (f.len() + n - 1) / n;
+                    for ch in f.chunks(piece.max(1)) {
+                        srv.write_raw(&srv.seal(ch));
+                        pause(&mut rng, sc.pauses);
+                    }
+                    expected.extend(st);
+                    k += 1;
+                }
+                Packing::SegmentSplit(off) => {
+                    let (f, st) = bitmap_pdu(&srv, k);
+                    let ct = srv.seal(&f);
+                    let cut = (*off).min(ct.len());
+                    srv.write_raw(&ct[..cut]);
+                    std::thread::sleep(Duration::from_micros(300));
+                    srv.write_raw(&ct[cut..]);
+                    expected.extend(st);
+                    k += 1;
+                }
+            }
+            trace.push(format!("pdu{}", k));
+            pause(&mut rng, sc.pauses);
+        }
+        // placement of the end event relative to the thread's cycle
+        let p = Profile::default();
+        let end_bytes: Option<Vec<u8>> = match sc.end {
+            End::Ultimatum => Some(srv.frame(&proto::disconnect_ultimatum(3), Wrap::X224)),
+            End::GarbagePdu => Some(if sc.seed % 2 == 0 { srv.frame(&{ let mut b = B::new(); b.bytes("junk", &[0xFC, 1, 2, 3]); b }, Wrap::X224) } else { vec![3, 0, 0, 9, 2, 0xF0, 0x00, 0x68, 0] }),
+            _ => None,
+        };
+        let _ = p;
+        let mut held_lock = None;
+        match sc.step {
+            Step::InSelect => {
+                if !wait_in_select(5000) && !handle.is_finished() {
+                    trace.push("thread-never-reached-select".into());
+                } else {
+                    trace.push("thread-in-select".into());
+                }
+            }
+            Step::AtRead => {
+                gate.enabled.store(true, Ordering::SeqCst);
+                let base = *gate.arrived.lock().unwrap();
+                // a normal PDU makes select fire; the thread locks and enters read(), where the gate holds it
+                let (f, st) = bitmap_pdu(&srv, 900);
+                srv.write_raw(&srv.seal(&f));
+                expected.extend(st);
+                let mut a = gate.arrived.lock().unwrap();
+                let t0 = Instant::now();
+                while *a <= base && t0.elapsed() < Duration::from_secs(5) {
+                    let (g2, _) = gate.arrived_cv.wait_timeout(a, Duration::from_millis(20)).unwrap();
+                    a = g2;
+                }
+                trace.push(if *a > base { "thread-at-read-gate".into() } else { "gate-not-reached".into() });
+            }
+            Step::AtLock => {
+                held_lock = Some(shared.lock().unwrap());
+                let (f, st) = bitmap_pdu(&srv, 901);
+                srv.write_raw(&srv.seal(&f));
+                expected.extend(st);
+                // wait until the thread is blocked on the mutex (futex)
+                let t0 = Instant::now();
+                let mut ok = false;
+                while t0.elapsed() < Duration::from_secs(5) {
+                    if blocked_syscall(tid) == SYS_FUTEX {
+                        ok = true;
+                        break;
+                    }
+                    std::thread::sleep(Duration::from_micros(300));
+                }
+                trace.push(if ok { "thread-blocked-at-lock".into() } else { "lock-not-reached".into() });
+            }
+            Step::Free => {
+                pause(&mut rng, true);
+            }
+        }
+        // the end event
+        let mut ended = false;
+        match sc.end {
+            End::None => {}
+            End::Ultimatum | End::GarbagePdu => {
+                let bytes = end_bytes.clone().unwrap();
+                if sc.end_in_same_record {
+                    let (f, st) = bitmap_pdu(&srv, 960);
+                    let (f2, st2) = bitmap_pdu(&srv, 961);
+                    expected.extend(st);
+                    expected.extend(st2);
+                    let mut plain = f;
+                    plain.extend_from_slice(&f2);
+                    plain.extend_from_slice(&bytes);
+                    srv.write_raw(&srv.seal(&plain));
+                } else {
+                    srv.write_raw(&srv.seal(&bytes));
+                }
+                ended = true;
+                trace.push(format!("{:?}", sc.end));
+            }
+            End::CloseNotify => {
+                if point == Point::MiddleOfPdu {
+                    let (f, _) = bitmap_pdu(&srv, 950);
+                    srv.write_raw(&srv.seal(&f[..f.len() / 2]));
+                }
+                let cn = state.lock().unwrap().tls.as_mut().map(|t| t.close_notify()).unwrap_or_default();
+                srv.write_raw(&cn);
+                if !sc.linger {
+                    unsafe { libc::shutdown(ss.as_raw_fd(), libc::SHUT_WR) };
+                }
+                ended = true;
+                trace.push("close_notify".into());
+            }
+            End::AbruptClose => {
+                if point == Point::MiddleOfPdu {
+                    let (f, _) = bitmap_pdu(&srv, 950);
+                    let ct = srv.seal(&f);
+                    srv.write_raw(&ct[..ct.len() / 2]);
+                }
+                unsafe { libc::shutdown(ss.as_raw_fd(), libc::SHUT_RDWR) };
+                ended = true;
+                trace.push("abrupt-close".into());
+            }
+        }
+        // release the placement
+        match sc.step {
+            Step::AtRead => {
+                gate.enabled.store(false, Ordering::SeqCst);
+                let mut r = gate.release.lock().unwrap();
+                *r = u64::MAX;
+                gate.release_cv.notify_all();
+            }
+            Step::AtLock => {
+                drop(held_lock.take());
+            }
+            _ => {}
+        }
+        // remaining PDUs after a "none" end (or nothing after a real end)
+        if sc.end == End::None {
+            while k < total {
+                let (f, st) = bitmap_pdu(&srv, k);
+                srv.write_raw(&srv.seal(&f));
+                expected.extend(st);
+                k += 1;
+                pause(&mut rng, sc.pauses);
+            }
+        }
+        srv.flush();
+
+        // ---- wait for quiescence (generous wall deadline => inconclusive only)
+        let t0 = Instant::now();
+        let mut verdict_ready = false;
+        let mut spinning = false;
+        let mut stuck_in_select = false;
+        let mut quiet_polls = 0;
+        let ticks0 = cpu_ticks(tid);
+        let mut cpu_spent = 0u64;
+        while t0.elapsed() < Duration::from_secs(20) {
+            if handle.is_finished() {
+                verdict_ready = true;
+                break;
+            }
+            let rae = gate.reads_after_eof.load(Ordering::SeqCst);
+            cpu_spent = cpu_ticks(tid).saturating_sub(ticks0);
+            // spinning, decided on logical quantities: read calls after end of stream, or a full second of the
+            // thread's own CPU time burnt after the script ended (a healthy thread needs microseconds)
+            if rae > 64 || cpu_spent > 100 {
+                spinning = true;
+                verdict_ready = true;
+                break;
+            }
+            let sysc = blocked_syscall(tid);
+            let waiting = (sysc == SYS_SELECT || sysc == SYS_PSELECT6 || sysc == SYS_READ || sysc == SYS_RECVFROM) && fionread(client_fd) == 0;
+            if waiting {
+                quiet_polls += 1;
+                // stable over several polls: the thread waits for *further* traffic
+                if quiet_polls >= 20 {
+                    stuck_in_select = true;
+                    verdict_ready = true;
+                    break;
+                }
+            } else {
+                quiet_polls = 0;
+            }
+            std::thread::sleep(Duration::from_micros(500));
+        }
+        // collect what the channel delivered
+        let mut got: Vec<Vec<u8>> = Vec::new();
+        while let Ok(b) = rx.try_recv() {
+            got.push(b.data);
+        }
+        out.delivered = got.len();
+        out.expected = expected.len();
+        out.reads_after_eof = gate.reads_after_eof.load(Ordering::SeqCst);
+        out.exited = handle.is_finished();
+        let class = sc.class();
+        if !verdict_ready {
+            out.inconclusive = Some(format!("no quiescence within 20 s (thread syscall {}, socket queue {})", blocked_syscall(tid), fionread(client_fd)));
+        } else {
+            // (i) everything sent before the end must have been forwarded, in order
+            if got != expected {
+                let what = if got.len() < expected.len() && expected[..got.len()] == got[..] {
+                    "bitmaps-stranded"
+                } else if got.len() > expected.len() {
+                    "bitmaps-duplicated-or-extra"
+                } else {
+                    "bitmaps-wrong-or-out-of-order"
+                };
+                out.violations.push((format!("C20/{}/{}", class, what), format!("the server sent {} rectangles before the end event, the bitmap channel delivered {} (thread exited: {}, waiting for traffic: {}); {} ; trace {:?}", expected.len(), got.len(), out.exited, stuck_in_select, sc.full_class(), trace)));
+            }
+            // (ii) the session ended => the thread must have exited and released the shared client
+            if ended {
+                if spinning {
+                    out.violations.push((format!("C20/{}/spins-on-dead-socket", class), format!("{} read calls after the transport reported end of stream / error, {} clock ticks of thread CPU time after the script ended, and the thread is still running; {} ; trace {:?}", out.reads_after_eof, cpu_spent, sc.full_class(), trace)));
+                } else if !out.exited {
+                    out.violations.push((format!("C20/{}/thread-does-not-stop", class), format!("the session ended but the receive thread waits for further traffic (socket queue empty); {} ; trace {:?}", sc.full_class(), trace)));
+                }
+            } else if out.exited {
+                out.violations.push((format!("C20/{}/thread-stopped-while-session-alive", class), format!("no end event was sent but the receive thread exited; trace {:?}", trace)));
+            }
+        }
+        out.interleaving = trace.join(">");
+        // ---- tear down whatever state we are in
+        stop_writer.store(true, Ordering::SeqCst);
+        sync.store(false, Ordering::SeqCst);
+        gate.enabled.store(false, Ordering::SeqCst);
+        {
+            let mut r = gate.release.lock().unwrap();
+            *r = u64::MAX;
+            gate.release_cv.notify_all();
+        }
+        unsafe { libc::shutdown(ss.as_raw_fd(), libc::SHUT_RDWR) };
+        if let Some(w) = writer {
+            let _ = w.join();
+        }
+        let t1 = Instant::now();
+        while !handle.is_finished() && t1.elapsed() < Duration::from_secs(5) {
+            std::thread::sleep(Duration::from_millis(1));
+        }
+        if handle.is_finished() {
+            let _ = handle.join();
+            if ended && out.exited && Arc::strong_count(&shared) != 1 {
+                out.violations.push((format!("C20/{}/shared-client-not-released", class), format!("strong count {} after the thread exited", Arc::strong_count(&shared))));
+            }
+        }
+        let _ = pump.join();
+        out
+    }
+
+    pub fn make_scenario(class: u64, idx: u64, seed: u64) -> Scenario {
+        let mut r = Rng::derive(seed, "C20", class, idx);
+        let packings = [Packing::OnePerRecord, Packing::SeveralPerRecord(2), Packing::SeveralPerRecord(3), Packing::SeveralPerRecord(8), Packing::SplitAcrossRecords(2), Packing::SplitAcrossRecords(5), Packing::SegmentSplit(1), Packing::SegmentSplit(3), Packing::SegmentSplit(5), Packing::SegmentSplit(8)];
+        let ends = [End::Ultimatum, End::CloseNotify, End::AbruptClose, End::GarbagePdu, End::None];
+        let points = [Point::BeforeAnyUpdate, Point::BetweenPdus, Point::MiddleOfPdu, Point::AfterLast];
+        let steps = [Step::InSelect, Step::AtRead, Step::AtLock];
+        match class {
+            0 => {
+                // product: packing x end x point x step
+                let mut k = idx;
+                let packing = packings[(k % packings.len() as u64) as usize].clone();
+                k /= packings.len() as u64;
+                let end = ends[(k % 5) as usize];
+                k /= 5;
+                let point = points[(k % 4) as usize];
+                k /= 4;
+                let step = steps[(k % 3) as usize];
+                Scenario { packing, n_pdus: 6, end, point, step, tls12: r.chance(2, 3), linger: r.chance(1, 2), input_writer: r.chance(1, 2), pauses: r.chance(1, 2), end_in_same_record: r.chance(1, 5), seed: seed ^ idx }
+            }
+            _ => Scenario {
+                packing: packings[r.below(packings.len() as u64) as usize].clone(),
+                n_pdus: r.range(1, 12) as usize,
+                end: ends[r.below(5) as usize],
+                point: points[r.below(4) as usize],
+                step: Step::Free,
+                tls12: r.chance(1, 2),
+                linger: r.chance(1, 2),
+                input_writer: r.chance(2, 3),
+                pauses: true,
+                end_in_same_record: r.chance(1, 5),
+                seed: seed.wrapping_mul(31) ^ idx,
+            },
+        }
+    }
+
+    fn judge(sc: &Scenario, class: u64, idx: u64, seed: u64, rep: &mut Report) {
+        rep.eval();
+        let o = run_scenario(sc);
+        let rp = json!({"gen": [class, idx, seed], "scenario": sc.to_json()});
+        if let Some(why) = &o.inconclusive {
+            rep.inconclusive(&why.chars().take(60).collect::<String>());
+            rep.hist("inconclusive");
+            return;
+        }
+        rep.hist(if o.violations.is_empty() { "held" } else { "breach" });
+        rep.set("interleavings", format!("{}|{}", sc.full_class(), o.interleaving));
+        rep.set("scenario_classes", sc.full_class());
+        rep.count("rectangles_expected", o.expected as u64);
+        rep.count("rectangles_delivered", o.delivered as u64);
+        rep.nontrivial(fnv(format!("{:?}", sc).as_bytes()));
+        if rep.want_sample() {
+            let s = json!({"scenario": sc.to_json(), "interleaving": o.interleaving, "delivered": o.delivered, "expected": o.expected, "exited": o.exited});
+            rep.sample(|| s);
+        }
+        for (sig, detail) in o.violations {
+            rep.violation(sig, detail, rp.clone());
+        }
+    }
+
+    pub fn run(cfg: &Cfg) -> Report {
+        let seed = cfg.seed;
+        let mut total = Report::new();
+        // scenarios use real threads and real sockets: a few in parallel only
+        let mut c2 = cfg.clone();
+        c2.threads = cfg.threads.min(8);
+        if cfg.wants(0) {
+            let n_full: u64 = 10 * 5 * 4 * 3;
+            let n = if cfg.quick() { 150 } else { n_full };
+            let rep = par_run(&c2, n, 1, |k, rep| {
+                let idx = if cfg.quick() { (k * 4 + seed % 4) % n_full } else { k };
+                mon::begin_case(20, 0, idx, seed);
+                let sc = make_scenario(0, idx, seed);
+                judge(&sc, 0, idx, seed, rep);
+            });
+            total.count("placed_scenarios", n);
+            total.merge(rep);
+        }
+        if cfg.wants(1) {
+            let n = cfg.n(200, 20_000);
+            let rep = par_run(&c2, n, 1, |idx, rep| {
+                mon::begin_case(20, 1, idx, seed);
+                let sc = make_scenario(1, idx, seed);
+                judge(&sc, 1, idx, seed, rep);
+            });
+            total.count("seeded_delay_scenarios", n);
+            total.merge(rep);
+        }
+        total
+    }
+
+    pub fn replay(_cfg: &Cfg, v: &Value) -> Report {
+        let mut rep = Report::new();
+        mon::set_quiet(false);
+        let g: Vec<u64> = if let Some(a) = v.get("death_case") {
+            let a: Vec<u64> = a.as_array().unwrap().iter().map(|x| x.as_u64().unwrap()).collect();
+            vec![a[1], a[2], a[3]]
+        } else {
+            v["gen"].as_array().map(|a| a.iter().map(|x| x.as_u64().unwrap_or(0)).collect()).unwrap_or(vec![0, 0, 1])
+        };
+        let sc = make_scenario(g[0], g[1], g[2]);
+        // timing-dependent: repeat a few times
+        for _ in 0..5 {
+            judge(&sc, g[0], g[1], g[2], &mut rep);
+        }
+        rep
     }
 }
